@@ -2,7 +2,7 @@
 From Coq Require Import List ZArith.
 Import ListNotations.
 From Goag Require Import Base.Str Model.Params Model.Json Spec.JsonSpec
-     Proofs.JsonEncProofs Proofs.JsonRtProofs Proofs.JsonConfProofs.
+     Proofs.JsonEncProofs Proofs.JsonRtProofs Proofs.JsonConfProofs Model.OneOf Proofs.OneOfProofs.
 
 (* The JSON produced for any value of a schema-derived type validates against
    that schema: required properties present, unset optionals omitted, null only
@@ -16,3 +16,15 @@ Theorem C07_conforms : forall fmt_float fmt_time parse_num parse_time,
     rt_ok s v -> enc fmt_float fmt_time s v = Ok j -> validates parse_num parse_time s j = true.
 Proof. exact conforms. Qed.
 Print Assumptions C07_conforms.
+
+(* a oneOf value (exactly one variant's field set) encodes to a document that
+   validates against that variant's schema *)
+Theorem C07_oneof_conforms : forall fmt_float fmt_time parse_num parse_time,
+  (forall b r, parse_num b (fmt_float b r) = Some r) ->
+  (forall r, parse_time (fmt_time r) = Some r) ->
+  forall vs i s v j,
+    nth_error vs i = Some s -> rt_ok s v ->
+    enc_oneof fmt_float fmt_time vs (single (length vs) i v) = Ok j ->
+    validates parse_num parse_time s j = true.
+Proof. exact oneof_conforms. Qed.
+Print Assumptions C07_oneof_conforms.
